@@ -198,6 +198,49 @@ Qed.
 
 End Crash.
 
+(* ---- composition with C04: one weight per validator ------------------------------------- *)
+
+Section Unique.
+Variable O : oracles.
+(* uniqueness of the VRF output per (key, message): every proof the verifier accepts for one key
+   and one (seed, step, index) yields the same hash.  This is C04's theorem
+   C04_vrf_output_unique (coq/C04/Properties.v), proved there for ProofToHash with strict
+   decoding under the soundness of the discrete-log-equality check; here it is the hypothesis
+   the C01 clause "weight-inflated votes contribute nothing" composes with. *)
+Hypothesis vrf_unique : forall pk seed role index p p' h h',
+  o_vrf O pk seed role index p = Some h -> o_vrf O pk seed role index p' = Some h' -> h = h'.
+
+Theorem weight_unique : forall mk seed index step p p' sub sub' thr stake total,
+  verify_sortition O mk seed index step p sub thr stake total = Some true ->
+  verify_sortition O mk seed index step p' sub' thr stake total = Some true ->
+  sub = sub'.
+Proof.
+  intros until total. intros H1 H2.
+  apply sortition_ok_inv in H1 as (h & j & Hv & Hs & _ & Hu & _).
+  apply sortition_ok_inv in H2 as (h' & j' & Hv' & Hs' & _ & Hu' & _).
+  assert (h = h') by (eapply vrf_unique; eauto). subst h'.
+  rewrite Hs in Hs'. inversion Hs'; subst j'. congruence.
+Qed.
+
+(* the weight counted for a validator is the one weight its key has for (seed, step, index):
+   whatever other proof and claimed weight would pass the sortition check for that validator
+   claims exactly the counted weight *)
+Theorem counted_weight_unique : forall V c step votes x bk mk,
+  In x (counted_from O V c step [] votes) ->
+  recover_signer (c_lb c) (fst x) = Some (snd x, bk, mk) ->
+  forall p' sub',
+    verify_sortition O mk (c_seed c) (c_index c) step p' sub' (c_thr c) (v_stake (snd x)) (lb_total (c_lb c)) = Some true ->
+    sub' = vt_votes (fst x).
+Proof.
+  intros V c step votes x bk mk Hx HR p' sub' H'.
+  pose proof (counted_facts O V c step votes []) as HF. rewrite Forall_forall in HF.
+  destruct (HF x Hx) as [(bk0 & mk0 & HR0 & _ & Hs & _) _].
+  rewrite HR in HR0. inversion HR0; subst bk0 mk0.
+  unfold sortition_ok in Hs. eapply weight_unique; eauto.
+Qed.
+
+End Unique.
+
 (* ---- whole header ------------------------------------------------------------ *)
 
 Section Main.
